@@ -19,6 +19,10 @@ class CollectionValue(GenericValue):
     def __contains__(self, item):
         if self._old_value is undefined:
             state().missing_values += 1
+        else:
+            # the comparison can raise an exception,
+            # nothing should be recorded in this case
+            old_result = item in self._old_value
 
         if self._new_value is undefined:
             self._new_value = [clone(item)]
@@ -29,7 +33,7 @@ class CollectionValue(GenericValue):
         if self._old_value is undefined:
             return True
         else:
-            return self._return(item in self._old_value)
+            return self._return(old_result)
 
     def _new_code(self):
         return self._file._value_to_code(self._new_value)
